@@ -104,6 +104,14 @@ CHECKS = {
              'non-numeric) on every recorded observation.',
         note='Binary fractions only (exact); tolerance 1/1000 unit; mixed number/string data undefined.',
         ref='DESIGN.md section 4 C16'),
+    'C19': dict(engine='DTJoin',
+        technique='TLA+ model of piece joining and ustr (DTJoin) checked by TLC; every case replayed with four template encodings',
+        text='DTJoin gives the result of every piece tree (0/1/n rule, decode on join, html_quote decoding, dtml-in join, '
+             'inline if bodies, own render_blocks of try/with/let) and the string form of non-string values; TLC checks '
+             'MultiIsText, BytesEquivText, RaisesOnlyOwn; each case is rendered with utf-8, latin-1, cp1252 and utf-16 '
+             'templates and type and text must agree.',
+        note='Codecs trusted; for a single piece the property leaves the result type open.',
+        ref='DESIGN.md section 4 C19'),
 }
 
 REASON_PENDING = 'check not built yet in this round (planned, see DESIGN.md section 4)'
